@@ -12,6 +12,7 @@ pub mod c10;
 pub mod c11;
 pub mod c12;
 pub mod c13;
+pub mod c14;
 pub mod c19;
 
 use crate::explore::{Limits, Violation};
@@ -43,6 +44,7 @@ pub fn sim_check(id: &str, tier: &str, _seed: i64) -> Option<SimCheck> {
         "C11" => Some(c11::build(tier)),
         "C12" => Some(c12::build(tier)),
         "C13" => Some(c13::build(tier)),
+        "C14" => Some(c14::build(tier)),
         "C19" => Some(c19::build(tier)),
         _ => None,
     }
